@@ -94,11 +94,16 @@ pub struct LayerCase {
     pub version: u8, // 9, 10, 11, 2, 3
     pub preset: &'static str,
     pub conn_h2: bool,
+    /// user information in front of the host (never part of Host or of the request target)
+    pub userinfo: Option<&'static str>,
 }
 
 impl LayerCase {
     fn uri(&self) -> String {
-        let mut s = format!("{}://{}", self.scheme, self.host);
+        let mut s = match self.userinfo {
+            Some(u) => format!("{}://{}@{}", self.scheme, u, self.host),
+            None => format!("{}://{}", self.scheme, self.host),
+        };
         if let Some(p) = self.port {
             s.push_str(&format!(":{p}"));
         }
@@ -380,7 +385,29 @@ pub fn all_layer_cases() -> Vec<LayerCase> {
                             for version in VERSIONS {
                                 for preset in PRESETS {
                                     for conn_h2 in [false, true] {
-                                        v.push(LayerCase { scheme, host, port, path, query, method, version, preset, conn_h2 });
+                                        v.push(LayerCase { scheme, host, port, path, query, method, version, preset, conn_h2, userinfo: None });
+                                    }
+                                }
+                            }
+                        }
+                    }
+                }
+            }
+        }
+    }
+    // user information in the authority (CONNECT is left out: whether authority-form keeps it is not judged)
+    for userinfo in ["user", "user:secret", "a.test:443"] {
+        for scheme in ["http", "https", "wss"] {
+            for host in ["example.com", "[::1]", "127.0.0.1"] {
+                for port in PORTS {
+                    for path in ["", "/", "/a/b/c"] {
+                        for query in [None, Some("x=1&y=%20z")] {
+                            for method in ["GET", "POST", "OPTIONS"] {
+                                for version in [10u8, 11, 2] {
+                                    for preset in ["none", "host", "connspec"] {
+                                        for conn_h2 in [false, true] {
+                                            v.push(LayerCase { scheme, host, port, path, query, method, version, preset, conn_h2, userinfo: Some(userinfo) });
+                                        }
                                     }
                                 }
                             }
